@@ -170,3 +170,9 @@ def PObj.trace : PObj → Except Err Cx
   | .num _ => .error .type
 
 end PC
+
+namespace PC
+/-- `StabilizerState.expect(PauliPolynomial)` (repaired): strings evaluated phase-free, `i^p` folded into the coefficient -/
+def expectPoly (st : State) (a : Poly) : Cx :=
+  a.foldl (fun acc t => acc.add ((t.2.mul (Cx.ipow t.1.p)).mul (Cx.ofInt (expect1 st ⟨t.1.g, 0⟩)))) Cx.zero
+end PC
